@@ -47,6 +47,19 @@ var c11Queries = []c11q{
 	{"cte", "WITH c AS (SELECT * FROM `{R}t`) SELECT * FROM c x JOIN c y ON x.id = y.id"},
 	{"cte", "WITH t AS (SELECT 1 AS shadow FROM `{R}u`) SELECT * FROM t"},
 	{"derived", "SELECT * FROM (SELECT id, a FROM `{R}t` ORDER BY a DESC) AS d"},
+	// WITH below the outermost statement: derived table, join operand, subquery, union branch
+	{"nested-cte", "SELECT * FROM (WITH c AS (SELECT id FROM `{R}t`) SELECT * FROM c) AS x"},
+	{"nested-cte", "SELECT * FROM `{R}t` x JOIN (WITH c AS (SELECT * FROM `{R}u`) SELECT * FROM c) y ON x.b = y.b"},
+	{"nested-cte", "SELECT id, (WITH c AS (SELECT c FROM `<-{R}u`) SELECT * FROM c) AS s FROM `{R}t`"},
+	{"nested-cte", "SELECT id FROM `{R}t` UNION ALL SELECT id FROM (WITH c AS (SELECT id FROM `{R}t` WHERE a > 1) SELECT * FROM c) AS d"},
+	{"nested-cte", "SELECT * FROM (WITH c AS (SELECT id, FAULT(a) AS a FROM `{R}t`) SELECT * FROM c WHERE a > 100) AS x"},
+	// joins whose operands carry no alias (the rows are the caller's own maps, not {alias: row} wrappers)
+	{"join-unaliased", "SELECT * FROM `{R}t` LEFT JOIN `{R}u` ON b = b"},
+	{"join-unaliased", "SELECT * FROM `{R}t` RIGHT JOIN `{R}u` ON a < c"},
+	{"join-unaliased", "SELECT * FROM `{R}t` LEFT HASH_JOIN `{R}u` ON b = b"},
+	{"join-unaliased", "SELECT * FROM `{R}t` PARALLEL LEFT JOIN `{R}u` ON a > c"},
+	{"join-unaliased", "SELECT * FROM `{R}u` JOIN `{R}t` ON b = b"},
+	{"join-unaliased", "SELECT * FROM `{R}t` x LEFT JOIN `{R}u` ON x.b = b"},
 	{"subquery", "SELECT id, (SELECT q FROM items WHERE q > 0) AS s FROM `{R}t`"},
 	{"subquery", "SELECT id, (SELECT c FROM `<-{R}u`) AS s, * FROM `{R}t`"},
 	{"subquery", "SELECT id FROM `{R}t` WHERE a IN (SELECT c FROM `<-{R}u`)"},
@@ -263,7 +276,7 @@ func (p *c11) RunCase(i int) *core.CaseResult {
 
 func (p *c11) Meta() core.Meta {
 	return core.Meta{
-		Rule: "one case per (query, Wrapped or not): 41 queries covering every clause kind (WHERE operator families, projections incl. star / FUSE / path selectors / pipes, ORDER BY / LIMIT, DISTINCT, GROUP BY / HAVING / aggregates, every join strategy incl. INTO and PARALLEL, UNION, CTEs incl. one that shadows a document key, derived tables, select-list / IN / EXISTS subqueries with <-, nested FROM and mix=>, ASYNC / SPINASYNC / ONCE / SETVAR functions, dual) and 23 fault templates with FAULT(x) / RAISE_WHEN / a type error in every clause position; on 4 documents (spare capacity with sentinel values in every array, empty, single row, a document whose arrays and rows are aliased); fault templates are run fault-free to count the N invocations of the fault point and then once per k in 1..N. Oracle: cycle-safe deep comparison of the caller's document (keys, values, lengths, spare capacity) with a snapshot taken before New. non-trivial = the query returned rows / a fault fired",
+		Rule: "one case per (query, Wrapped or not): 52 queries covering every clause kind (WHERE operator families, projections incl. star / FUSE / path selectors / pipes, ORDER BY / LIMIT, DISTINCT, GROUP BY / HAVING / aggregates, every join strategy incl. INTO and PARALLEL, UNION, CTEs incl. one that shadows a document key and WITH clauses below the outermost statement, joins without table aliases, derived tables, select-list / IN / EXISTS subqueries with <-, nested FROM and mix=>, ASYNC / SPINASYNC / ONCE / SETVAR functions, dual) and 23 fault templates with FAULT(x) / RAISE_WHEN / a type error in every clause position; on 4 documents (spare capacity with sentinel values in every array, empty, single row, a document whose arrays and rows are aliased); fault templates are run fault-free to count the N invocations of the fault point and then once per k in 1..N. Oracle: cycle-safe deep comparison of the caller's document (keys, values, lengths, spare capacity) with a snapshot taken before New. non-trivial = the query returned rows / a fault fired",
 		Assumptions: []string{"the result may share structure with the input (rows are passed by reference); only writes by the library are violations", "ASYNC functions of the harness do not modify their arguments"},
 		Bounds:      map[string]any{"queries": len(c11Queries), "fault_templates": len(c11Faulted), "documents": len(p.docs)},
 		Exhaustive:  true,
